@@ -5,7 +5,7 @@ import random
 
 import vf
 
-F_NONE = {"tls": "absent", "mechs": "none", "s2": "none", "b2": "none", "r2": False, "legacy": False, "bind": False, "sm": False}
+F_NONE = {"tls": "absent", "mechs": "none", "s2": "none", "b2": "none", "r2": False, "legacy": False, "bind": False, "sm": False, "register": False}
 
 
 def feat(**kw):
@@ -20,6 +20,8 @@ HDR = {"k": "Hdr", "versioned": True}
 def epilogue(cfg, end_sock):
     """Honest reconnection appended to every behaviour (C10: "a following connection attempt runs the
     negotiation from the start and succeeds"). Uses PLAIN so that no server proof is involved."""
+    if cfg.get("reg", "none") != "none":
+        return []       # a registration-on-connect client never opens a session: nothing to re-establish
     steps = []
     if end_sock == "On":
         steps.append({"k": "Cut"})
@@ -57,7 +59,7 @@ def select(behs, cap, seed, coarse):
         k = _key(b, coarse)
         if k not in best or len(b["steps"]) < len(best[k]["steps"]):
             best[k] = b
-    top, prio, rest = [], [], []
+    regs, top, prio, rest = [], [], [], []
     for k in sorted(best):
         b = best[k]
         kk = b["key"]
@@ -70,14 +72,21 @@ def select(behs, cap, seed, coarse):
         # an answer, and the server now sends something on the new, not yet authenticated stream
         stale = (not pv.get("none", True)) and not pv.get("authed") and pv.get("lst", "Core") != "Core" \
             and not kk["authed"] and last not in ("Connect", "Cut", "Disconnect")
-        (top if stale else prio if hot else rest).append(b)
+        # a client with an extension that acts on the stream features itself (registration on
+        # connect): few keys, all of them about what is sent before authentication
+        regk = b["cfg"].get("reg", "none") != "none" and last not in ("Connect", "Cut", "Disconnect")
+        (regs if regk else top if stale else prio if hot else rest).append(b)
     rnd = random.Random(seed)
-    rnd.shuffle(top)
-    rnd.shuffle(prio)
-    rnd.shuffle(rest)
-    top = top[:cap // 2] if cap else top
-    chosen = (top + prio + rest)[:cap] if cap else top + prio + rest
-    return chosen, {"distinct_keys": len(best), "stale_manager_keys": len(top), "priority_keys": len(prio), "replayed": len(chosen)}
+    for lst in (regs, top, prio, rest):
+        rnd.shuffle(lst)
+    nreg, nstale = len(regs), len(top)
+    if cap:
+        regs = regs[:cap // 5]
+        top = top[:cap // 2 - len(regs) // 2]
+    chosen = (regs + top + prio + rest)[:cap] if cap else regs + top + prio + rest
+    return chosen, {"distinct_keys": len(best), "registration_keys": nreg, "registration_replayed": len(regs),
+                    "stale_manager_keys": nstale, "stale_manager_replayed": len(top),
+                    "priority_keys": len(prio), "replayed": len(chosen)}
 
 
 def sig_of(b, upto=None):
@@ -87,7 +96,7 @@ def sig_of(b, upto=None):
         k = s["k"]
         if k == "Features":
             f = s["f"]
-            on = [x for x in ("legacy", "bind", "sm") if f[x]]
+            on = [x for x in ("legacy", "bind", "sm", "register") if f.get(x)]
             if f.get("b2", "none") != "none":
                 on.append("bind2" + ("+sm" if f["b2"] == "sm" else ""))
             if f.get("r2"):
@@ -97,6 +106,8 @@ def sig_of(b, upto=None):
         return k + ("(" + ",".join(extra) + ")" if extra else "")
     c = b["cfg"]
     cfg = "tls=%s,sasl2=%d,sasl=%d,legacy=%d" % (c["tls"], c["sasl2"], c["sasl"], c["legacy"])
+    if c.get("reg", "none") != "none":
+        cfg += ",reg=" + c["reg"]
     return cfg + ":" + ",".join(one(s) for s in steps)
 
 
@@ -161,6 +172,11 @@ def run_stream(chk, prefix, replay=None):
     # 2. behaviours
     if replay:
         behs = [b for b in vf.read_ndjson(replay) if "steps" in b]
+        for b in behs:      # replay files written before the registration configuration existed
+            b["cfg"].setdefault("reg", "none")
+            for st in b["steps"]:
+                if st.get("k") == "Features":
+                    st["f"].setdefault("register", False)
     else:
         behs = generate(chk)
     bpath = chk.path("behaviours.ndjson")
